@@ -14,7 +14,10 @@ RULE = ("binary_op_with_limit / fused_binary_flip_op_with_limit for EVERY limit 
         "(large operand on the right; thorough: also on the left, with flips), connective with a large result whose exact size n is "
         "known in advance (canonical array of the expected truth table, built independently in Python): limits n-1, n, n+1 (thorough: "
         "also 1, 2, 65535, 65536, 65537, n/2, n+5000); dry runs with limits c-1, c, c+1 around the task count c of an independent "
-        "Python simulation (thorough: also 0, 65535, 65536, c/2, c+100000) and the unlimited dry run; MEDIUM operands (random "
+        "Python simulation (thorough: also 0, 65535, 65536, c/2, c+100000) and the unlimited dry run; BOTH operands large with "
+        "|a|*|b| > 2^32: the pairing function AND_i (x_i <=> x_{16+i}) over 32 variables (196,607 nodes) against itself under and / xor "
+        "(thorough: or, and_not, and against the differently paired variant), limits around the operand size and dry-run limits 65536, "
+        "196604, 196605, 10^6; limits that do not fit 32 bits (2^32, 2^32+1, 2^40, 2^63, 2^64-1, ...) on small operands; MEDIUM operands (random "
         "functions of 10..12 variables, 250..700 nodes) with limits around the result size, served by the fast twins in the normal "
         "run and re-run with the reference definitions in the engine cross-check")
 
@@ -109,6 +112,21 @@ def large_programs(rng, tier):
             limits = [1, 2, 65535, 65536, 65537, n // 2] + limits + [n + 5000]
             dry_limits = [0, 65535, 65536, c // 2] + dry_limits + [c + 100000]
         progs += limit_programs(a, b, t, fa, fb, fo, limits, dry_limits)
+    # BOTH operands far above 65,536 nodes, with |a| * |b| > 2^32 (a task identified by its position in the left x right
+    # table no longer fits 32 bits): the pairing function AND_i (x_i <=> x_{16+i}) over 32 variables, 3*2^16-1 = 196,607 nodes,
+    # against itself / its complement (tasks stay near the diagonal: about 200,000), thorough: against the differently
+    # paired variant as well.  The result and the task count are not pre-computed in Python: the limits straddle the
+    # operand size (the result of `a and a`, `a or a` is a; of `a and_not a` / `a xor a` is false).
+    pa = pairing_bdd(16)
+    assert len(pa) == 196607
+    cases = [(pa, pa, (False, False, False, True)), (pa, pa, (False, True, True, False))]
+    if tier != "quick":
+        pr = pairing_bdd(16, reversed_partner=True)
+        cases += [(pa, pa, (False, True, True, True)), (pa, pa, (False, False, True, False)), (pa, pr, (False, False, False, True)),
+                  (pr, pa, (False, True, True, False))]
+    for a, b, conn in cases:
+        t = partial_table(rng, conn)
+        progs += limit_programs(a, b, t, None, None, None, [1, 196606, 196607], [65536, 196604, 196605, 1000000])
     # medium operands: both random functions of 10..12 variables
     for i in range(2 if tier == "quick" else 20):
         nv = rng.choice([10, 11, 12])
@@ -152,6 +170,18 @@ def programs(rng, tier):
         a, b = rand_operand(rng, nv, 0.15), rand_operand(rng, nv, 0.15)
         fa, fb, fo = (rand_optvar(rng, nv, 0.6) for _ in range(3))
         progs.append(family(a, b, partial_table(rng, rng.choice(CONNS)), fa, fb, fo, maxlim=min(40, len(a) * len(b) + 4)))
+    # limits that do not fit 32 bits (the result is small: every such limit must answer Some / the count)
+    for _ in range(12 if tier == "quick" else 300):
+        nv = rng.choice([2, 3, 4, 5])
+        a, b = rand_operand(rng, nv, 0.1), rand_operand(rng, nv, 0.1)
+        t = partial_table(rng, rng.choice(CONNS))
+        fa, fb, fo = (rand_optvar(rng, nv, 0.5) for _ in range(3))
+        prog = [["a", "id", bdd_sx(a)], ["b", "id", bdd_sx(b)], ["full", "fbin", t, optvar(fa), optvar(fb), optvar(fo), "$a", "$b"],
+                ["dinf", "dry", "100000000", t, optvar(fa), optvar(fb), optvar(fo), "$a", "$b"]]
+        for lim in rng.sample([1 << 32, (1 << 32) + 1, (1 << 32) + 2, (1 << 33) + 3, 1 << 40, (1 << 48) + 5, 1 << 63, (1 << 64) - 2, (1 << 64) - 1], 4):
+            prog.append(["l%d" % lim, "fbinlim", str(lim), t, optvar(fa), optvar(fb), optvar(fo), "$a", "$b"])
+            prog.append(["d%d" % lim, "dry", str(lim), t, optvar(fa), optvar(fb), optvar(fo), "$a", "$b"])
+        progs.append(prog)
     # plain (unfused) entry points
     P = Prog()
     for _ in range(200 if tier == "quick" else 5000):
